@@ -1,23 +1,23 @@
 SPECIFICATION Spec
 CONSTANTS
-  MCMaxBal = 2
-  AmtRange = 3
+  MCMaxBal = 1
+  AmtRange = 1
   MaxPays = 2
-  MCChannels = {1}
+  MCChannels = {1, 2}
   Channels <- MCChannels
   MerOf <- MCMerOf
   InitBals <- MCInitBals
   Amounts <- MCAmounts
-  FaultKinds <- MCFaults
-  AdvChannels <- MCNone
+  FaultKinds <- MCNone
+  AdvChannels <- MCAdv
   ProofSound = TRUE
-  RevKinds <- MCRevKinds
+  RevKinds <- MCNone
   NAdd <- MCAdd
   NSub <- MCSub
   NLeq <- MCLeq
   NZero = 0
-  MaxBal = 2
-  UMax = 5
+  MaxBal = 1
+  UMax = 3
 INVARIANTS TypeOK CanClose LedgerShape Conservation HeldSigsValid TagSeparation IssuedMatchesLedger TokenOnlyAfterRevocation ClosedOnUnrevoked MerchantExposureBounded NoDoubleSpend
 PROPERTIES RefusedIsInert ReleaseOnlyOnAccept RefusedStartInert TokenIffOpens RestoreStutters ReplayRefused FaultRefused HonestAccepted
 CHECK_DEADLOCK FALSE
